@@ -339,6 +339,7 @@ pub fn e2_spec(id: &str, tier: &str) -> Option<crate::e2::E2Spec> {
                         phase2: false,
                         bound: if quick { 2 } else { 3 },
                         oracle: if once { Oracle::Once } else { Oracle::Readers },
+                        writer: vec![],
                     });
                     if once {
                         // two revisions (write between the phases), one preemption less
@@ -351,6 +352,7 @@ pub fn e2_spec(id: &str, tier: &str) -> Option<crate::e2::E2Spec> {
                             phase2: true,
                             bound: if quick { 1 } else { 2 },
                             oracle: Oracle::Once,
+                            writer: vec![],
                         });
                     }
                 }
@@ -365,6 +367,7 @@ pub fn e2_spec(id: &str, tier: &str) -> Option<crate::e2::E2Spec> {
                             phase2: once && !quick,
                             bound: if quick { 1 } else { 2 },
                             oracle: if once { Oracle::Once } else { Oracle::Readers },
+                            writer: vec![],
                         });
                     }
                 }
@@ -398,6 +401,7 @@ pub fn e2_spec(id: &str, tier: &str) -> Option<crate::e2::E2Spec> {
                         phase2: !quick,
                         bound: if quick { 2 } else { 3 },
                         oracle: Oracle::Intern,
+                    writer: vec![],
                     });
                 }
                 scens.push(Scen {
@@ -409,6 +413,7 @@ pub fn e2_spec(id: &str, tier: &str) -> Option<crate::e2::E2Spec> {
                     phase2: false,
                     bound: if quick { 1 } else { 2 },
                     oracle: Oracle::Intern,
+                    writer: vec![],
                 });
             }
             Some(E2Spec { id: "C08", scens, cap_s: cap, rule: RULE_E2, assumptions: e2_assumptions() })
@@ -433,6 +438,7 @@ pub fn e2_spec(id: &str, tier: &str) -> Option<crate::e2::E2Spec> {
                         phase2: true,
                         bound: if quick { 1 } else { 2 },
                         oracle: Oracle::PlainCycle(pure),
+                        writer: vec![],
                     });
                 }
                 if !quick || p.name == "pc-mixed" {
@@ -445,6 +451,7 @@ pub fn e2_spec(id: &str, tier: &str) -> Option<crate::e2::E2Spec> {
                         phase2: true,
                         bound: if quick { 0 } else { 1 },
                         oracle: Oracle::PlainCycle(pure),
+                        writer: vec![],
                     });
                 }
             }
@@ -459,9 +466,96 @@ pub fn e2_spec(id: &str, tier: &str) -> Option<crate::e2::E2Spec> {
                     phase2: false,
                     bound: 2,
                     oracle: Oracle::PlainCycle(false),
+                    writer: vec![],
                 });
             }
             Some(E2Spec { id: "C14", scens, cap_s: cap, rule: RULE_E2, assumptions: e2_assumptions() })
+        }
+        "C20" => {
+            let mut scens = Vec::new();
+            let progs_w: Vec<(ql::ex::Program, Vec<Vec<Op>>)> = vec![
+                (progs::p3(1, 0, 1), vec![vec![q(2), q(1)], vec![q(2)]]),
+                (progs::cyc2(Kind::Fx), vec![vec![q(0)], vec![q(1)]]),
+                (progs::nested3(Kind::Fx), vec![vec![q(0)], vec![q(2)]]),
+                (progs::cyc2(Kind::Fb), vec![vec![q(0)], vec![q(1)]]),
+                (progs::lru_set().remove(0), vec![vec![q(0), q(4)], vec![q(1), q(2)]]),
+            ];
+            for (p, th) in progs_w {
+                let writes: Vec<(&str, Vec<Op>)> = if p.name.starts_with("lru") {
+                    vec![("lrucap", vec![Op::LruCap(1)]), ("set", vec![Op::Set(0, 1)])]
+                } else {
+                    vec![("set", vec![Op::Set(0, 3)]), ("syn", vec![Op::Syn(ql::ex::Dur::Low)]), ("cancel", vec![Op::Cancel])]
+                };
+                for (wn, w) in writes {
+                    if quick && wn == "syn" && p.name.starts_with("nested") {
+                        continue;
+                    }
+                    scens.push(Scen {
+                        name: format!("{}-w-{}", p.name, wn),
+                        prog: p.clone(),
+                        setup: vec![],
+                        threads: th.clone(),
+                        phase2_writes: vec![],
+                        phase2: false,
+                        bound: if quick { 1 } else { 2 },
+                        oracle: Oracle::Writer,
+                        writer: w,
+                    });
+                }
+            }
+            if quick {
+                for p in [progs::p3(1, 0, 1), progs::cyc2(Kind::Fx)] {
+                    let th = if p.name.starts_with("cyc") { vec![vec![q(0)], vec![q(1)]] } else { vec![vec![q(2)], vec![q(1)]] };
+                    scens.push(Scen {
+                        name: format!("{}-w-set-k2", p.name),
+                        prog: p,
+                        setup: vec![],
+                        threads: th,
+                        phase2_writes: vec![],
+                        phase2: false,
+                        bound: 2,
+                        oracle: Oracle::Writer,
+                        writer: vec![Op::Set(0, 3)],
+                    });
+                }
+            }
+            Some(E2Spec { id: "C20", scens, cap_s: cap, rule: RULE_E2, assumptions: e2_assumptions() })
+        }
+        "C21" => {
+            let mut scens = Vec::new();
+            let ps: Vec<(ql::ex::Program, Vec<Vec<Op>>)> = vec![
+                (progs::p3(1, 0, 1), vec![vec![q(2), q(1)], vec![q(2)]]),
+                (progs::p3(5, 3, 2), vec![vec![q(2)], vec![q(1)]]),
+                (progs::cyc2(Kind::Fx), vec![vec![q(0)], vec![q(1)]]),
+                (progs::cond_cycle(Kind::Fx), vec![vec![q(2)], vec![q(0)]]),
+            ];
+            for (p, th) in ps {
+                // A and the cancelling thread only: deeper bound
+                scens.push(Scen {
+                    name: format!("{}-cancel-solo", p.name),
+                    prog: p.clone(),
+                    setup: vec![],
+                    threads: vec![th[0].clone()],
+                    phase2_writes: vec![],
+                    phase2: false,
+                    bound: if quick { 2 } else { 3 },
+                    oracle: Oracle::LocalCancel,
+                    writer: vec![],
+                });
+                // plus a third handle that may wait on the cancelled computation
+                scens.push(Scen {
+                    name: format!("{}-cancel-with-waiter", p.name),
+                    prog: p,
+                    setup: vec![],
+                    threads: th,
+                    phase2_writes: vec![],
+                    phase2: false,
+                    bound: if quick { 1 } else { 2 },
+                    oracle: Oracle::LocalCancel,
+                    writer: vec![],
+                });
+            }
+            Some(E2Spec { id: "C21", scens, cap_s: cap, rule: RULE_E2, assumptions: e2_assumptions() })
         }
         "C18" => {
             let mut scens = Vec::new();
@@ -482,6 +576,7 @@ pub fn e2_spec(id: &str, tier: &str) -> Option<crate::e2::E2Spec> {
                         phase2: true,
                         bound: if quick { 1 } else { 2 },
                         oracle: Oracle::Cycles,
+                        writer: vec![],
                     });
                 }
                 if kind != Kind::Fxj {
@@ -495,6 +590,7 @@ pub fn e2_spec(id: &str, tier: &str) -> Option<crate::e2::E2Spec> {
                         phase2: false,
                         bound: if quick { 0 } else { 1 },
                         oracle: Oracle::Cycles,
+                        writer: vec![],
                     });
                 }
             }
@@ -511,6 +607,7 @@ pub fn e2_spec(id: &str, tier: &str) -> Option<crate::e2::E2Spec> {
                         phase2: false,
                         bound: 2,
                         oracle: Oracle::Cycles,
+                        writer: vec![],
                     });
                 }
             }
